@@ -86,6 +86,9 @@ def confirm(src, sid):
 def run(sid, tier="quick", props=None):
     d = f"{VERIF}/seeded/{sid}"
     meta = json.load(open(f"{d}/meta.json"))
+    if meta.get("obsolete"):
+        print(sid, "skipped (obsolete):", meta["obsolete"][:80])
+        return
     props = props or [meta["property"]]
     rc, out = sh(f"git -C {REPO} status --porcelain --untracked-files=no")
     if out.strip():
